@@ -1050,6 +1050,32 @@ def _gait_init_out(res, ex):
 
 _GAIT = "env/unitree/g1/gait.py"
 
+# ------------------------------------------------------------------------------------------------ C18: where serialize writes
+def _serialize_bind():
+    written = []
+
+    def path_obj(nm):
+        """a pathlib.Path whose file name is the component list `nm` of Serial.v (directory part untouched)"""
+        suffix = Obj({"__eq__": Prim(lambda ex, n, a, k: Sc("B", f"(has_eqx {nm})") if len(a) == 1 and isinstance(a[0], Static) and a[0].v == ".eqx"
+                                     else fail(n, "suffix compared with something else than '.eqx'"))}, "suffix")
+        name = Obj({"__add__": Prim(lambda ex, n, a, k: Sc("O", f"({nm} ++ [eqx])") if len(a) == 1 and isinstance(a[0], Static) and a[0].v == ".eqx"
+                                    else fail(n, "something else than '.eqx' is appended"))}, "name")
+        # exists() is answered "no": mkdir(parents=True, exist_ok=True) is then always requested, which is a no-op on an existing directory
+        parent = Obj({"exists": Prim(lambda ex, n, a, k: Static(False)),
+                      "mkdir": Prim(lambda ex, n, a, k: Static(None) if isinstance(k.get("parents"), Sc) and k["parents"].t == "true"
+                                    and isinstance(k.get("exist_ok"), Sc) and k["exist_ok"].t == "true" else fail(n, "mkdir without parents=True, exist_ok=True"))}, "parent")
+        return Obj({"suffix": suffix, "name": name, "parent": parent, "@name": Sc("O", nm), "@rebuild": path_obj,
+                    "with_name": Prim(lambda ex, n, a, k: path_obj(a[0].t) if len(a) == 1 and isinstance(a[0], Sc) else fail(n, "with_name form"))}, "Path")
+
+    def write(ex, n, a, k):
+        if len(a) != 2 or k or not (isinstance(a[0], Obj) and a[0].name == "Path"):
+            fail(n, "tree_serialise_leaves call form")
+        written.append(a[0].fields["@name"])
+        return Static(None)
+    return {"self": O("model"), "path": O("nm"), "no_suffix": B("no_suffix"), "@Path": Prim(lambda ex, n, a, k: path_obj(a[0].t)),
+            "@eqx.tree_serialise_leaves": Prim(write), "@@written": written}
+
+
 # ------------------------------------------------------------------------------------------------ C09: PPO.train / train_epoch
 def _ppotrain_bind():
     def flat_obj(term):
@@ -1128,6 +1154,8 @@ def _rscan_bind():
 
 
 KERNELS = {
+    "C18": [Kernel("serialize", "utils.py", "Serializable", "serialize", _serialize_bind, "(nm : name) (no_suffix : bool)",
+                   lambda res, ex: [])],
     "C14": [Kernel("discrete_contains", "space/discrete.py", "Discrete", "contains", lambda: {"self": Obj({"n": Z("n")}, "Discrete"), "x": R("x")},
                    "(n : Z) (x : Q)", lambda res, ex: [("value", "bool", term_of(res))], prims=_SP_PRIMS, carrier="Q"),
             Kernel("box_contains", "space/box.py", "Box", "contains",
@@ -1305,6 +1333,10 @@ def translate(pid):
             ex.prims.update({nm[1:]: v for nm, v in b.items() if nm.startswith("@") and "." in nm})
             res = run_function(ex, fn, {kk: vv for kk, vv in b.items() if not kk.startswith("@@")}, scope)
             outs = k.outputs(res, ex)
+            if "@@written" in b:       # the file name handed to eqx.tree_serialise_leaves
+                if len(b["@@written"]) != 1:
+                    raise TranslateError("serialize does not write exactly one file")
+                outs = [("written_name", "name", b["@@written"][0].t)]
             if "@@emitted" in b:       # side effects recorded by the oracles of the specification (log records handed to a backend)
                 em = b["@@emitted"]
                 if len(em) != 1 or term_of(res) != "cbs":
@@ -1340,7 +1372,7 @@ def coq_text(pid, imports=()):
     return "\n".join(parts)
 
 
-IMPORTS = {"C14": ("Spaces",), "C09": ("Env", "Batching"), "C10": ("Env",), "C19": ("Env", "OnPolicy", "Logging"), "C06": ("Env", "Replay"), "C01": ("Env",), "C13": ("Env",), "C04": ("Env", "OnPolicy"), "C05": ("Env", "OnPolicy", "Replay", "OffPolicy"), "C20": ("Gait",), "C11": ("Env", "Observers"), "C12": ("Env", "OnPolicy")}
+IMPORTS = {"C18": ("Serial",), "C14": ("Spaces",), "C09": ("Env", "Batching"), "C10": ("Env",), "C19": ("Env", "OnPolicy", "Logging"), "C06": ("Env", "Replay"), "C01": ("Env",), "C13": ("Env",), "C04": ("Env", "OnPolicy"), "C05": ("Env", "OnPolicy", "Replay", "OffPolicy"), "C20": ("Gait",), "C11": ("Env", "Observers"), "C12": ("Env", "OnPolicy")}
 
 
 def generate(pid, coq_dir: Path):
